@@ -255,7 +255,9 @@ def run(chk):
              "violations": 0, "known_class": {}, "known_class_gfortran": {}}
     runner = Runner(reps=(6 if thorough else 2))
     gen = R.Gen(chk.rng)
-    n = 700 if thorough else 70
+    n = 400 if thorough else 70
+    if os.environ.get("VERIF_C09_CASES"):          # self-test aid: fewer random cases (the corpus always runs)
+        n = int(os.environ["VERIF_C09_CASES"])
     todo = corpus_cases()
     for _ in range(n):
         todo.append((gen.case(), chk.rng.choice(["paralleldo", "paralleldo", "do+parallel"])))
